@@ -37,6 +37,29 @@ def ext_tokenize(ex, st, args, kwargs, node):
     return ex.fresh_value("str", "token")
 
 
+def ext_source_getitem(ex, st, args, kwargs, node):
+    """source[region] of an in-memory NumPy source (basic slices only, rank 1): an array whose shape is what the region
+    selects from the source; the ghost field `__origin__` remembers the region (and `__origin_of__` the source's shape)
+    so that the postcondition can say WHICH elements were copied"""
+    base, key = args
+    if not (isinstance(key, TupV) and len(key.items) == 1 and isinstance(key.items[0], S.SliceV)):
+        from pyvc.engine import Unsupported
+        raise Unsupported(f"source[...] with a non-slice index at line {node.lineno}")
+    r = key.items[0]
+    n = S.item(base.get("shape"), 0)
+    ex.oblige(st, "safe", "slice-step-nonzero", S.step_ok(r), node.lineno, note="a zero-step slice raises ValueError")
+    o = ex.fresh_value("obj:Source", "sliced_source")
+    o.fields["shape"] = TupV([S.Opt(False, S.nsel(r, n))])
+    o.fields["dtype"] = base.get("dtype")
+    o.fields["__origin__"] = r
+    return o
+
+
+def ext_source_copy(ex, st, args, kwargs, node):
+    """ndarray.copy(): the same elements in fresh memory"""
+    return args[0]
+
+
 def unit_step(s):
     c = S.parts(s)[2]
     return S.Or(S.is_none(c), S.val(c, 1) == 1)
@@ -84,11 +107,11 @@ def make(spec, index_ty, region_ty):
             "SliceSlicesIntegers": {},
         }
         consts = {"self.array.ndim": 1}
-        externals = {"FromArray": ext_fromarray, "SliceSlicesIntegers": ext_ssi, "tokenize": ext_tokenize}
+        externals = {"FromArray": ext_fromarray, "SliceSlicesIntegers": ext_ssi, "tokenize": ext_tokenize,
+                     "Source.__getitem__": ext_source_getitem, "Source.copy": ext_source_copy}
         havoc = {
             "type(source) in (np.ndarray, np.ma.core.MaskedArray)": "bool",
             "int(np.prod(region_shape, dtype=object)) * source.dtype.itemsize": "int",
-            "source[new_region].copy()": "obj:Source",
             "'-'.join((f'i{idx}' if isinstance(idx, Integral) else 's' for idx in extract_index))": "str",
         }
 
@@ -128,9 +151,18 @@ def make(spec, index_ty, region_ty):
                 out["region-count"] = comp["count"]
                 out["region-positions"] = comp["positions"]
             else:
-                # region dropped: only on the NumPy paths (whole source selected, or the source itself was replaced by the
-                # selected data); for any other source the deferred region must be kept
-                out["region-dropped-only-for-ndarray"] = True
+                # region dropped: only on the NumPy paths.  Either the source itself was replaced by a copy of the selected
+                # data (the ghost origin of the new source is then the region that was copied), or the same source is
+                # kept and the selection is the whole of it; in both cases the elements read are exactly the composition
+                # of the old region and the index, and the new node's chunks tile the new source
+                new_src = io.fields["array"]
+                old = old_region.items[0] if isinstance(old_region, TupV) else S.SliceV(Opt(True, 0), Opt(True, 0), Opt(True, 0))
+                r = new_src.fields.get("__origin__", S.SliceV(Opt(True, 0), Opt(True, 0), Opt(True, 0)))
+                comp = composed(r, old, idx, n, k)
+                out["copied-count"] = comp["count"]
+                out["copied-positions"] = comp["positions"]
+                out["copied-unit-step"] = S.And(S.step_ok(r), unit_step(r))
+                out["chunks-tile-the-new-source"] = S.ssum(ch) == S.item(new_src.get("shape"), 0)
             return out
 
     accept_slice.__name__ = f"accept_slice__{spec}"
